@@ -706,7 +706,7 @@ fn run(ctx: &Ctx) -> i32 {
             spaces,
             cfg: PoolCfg { chunk: 1, case_timeout: Duration::from_secs(60), ..Default::default() },
             level: "model_checking",
-            rule: "stateless exploration of thread interleavings of real concurrent write_writer calls under a cooperative scheduler: scheduling points = every shared-string-table lock operation (hook before each) + make_buffer entry/exit + thread start; 2-saver configurations are explored COMPLETELY (all interleavings), 3-saver configurations up to the stated preemption bound; every execution rebuilds its workbooks; each saver's output is reloaded and must show exactly its own workbook's cells. states = distinct (per-saver progress vector, running saver, parked sites) scheduler states + distinct outcomes; transitions = scheduling steps; traces_validated_against_impl = every step runs the real code".into(),
+            rule: "stateless exploration of thread interleavings of real concurrent write_writer calls under a cooperative scheduler: scheduling points = every shared-string-table lock operation (hook before each) + make_buffer entry/exit + thread start; 2-saver configurations are explored COMPLETELY (all interleavings), 3-saver configurations up to the stated preemption bound; every execution rebuilds its workbooks; each saver's output is reloaded and must show exactly its own workbook's cells. The bound is iterated: space `first:schedules-at-most-2-preemptions` explores every completely-explored configuration with at most 2 preemptions first (a subset of the complete pass); if it reports violations the complete pass is not run (caps_hit says so). states = distinct (per-saver progress vector, running saver, parked sites) scheduler states + distinct outcomes; transitions = scheduling steps; traces_validated_against_impl = every step runs the real code".into(),
             alphabets: json!({"configurations": cfgs.iter().map(|c| json!({"name": c.name, "savers": c.objects, "texts": c.texts, "preemption_bound": c.bound})).collect::<Vec<_>>(), "lock_sites_found_and_hooked": sites}),
             bounds: json!({"savers": "2 (complete) and 3 (preemption-bounded)", "text_cells_per_book": if ctx.tier == Tier::Thorough {"3 (2-saver configurations), 2 (3-saver and lazy configurations)"} else {"2"}, "split_prefix_length": SPLIT, "entry_exit_points": if ctx.tier == Tier::Thorough {"scheduling points"} else {"not scheduling points in the quick tier (sound reduction: no shared-state operation between them and the neighbouring lock site)"}}),
             exhaustive: true,
